@@ -1,6 +1,7 @@
 """Correspondence run for C20 (what the message objects expose; inspect())."""
 import contextlib
 import io
+import os
 import json
 import random
 import warnings
@@ -74,6 +75,17 @@ def _story_items(ro):
     return [(s.findtext('storyID') or None, [i.findtext('itemID') or None for i in s.findall('item')]) for s in rc.findall('story')]
 
 
+class _Tty(io.StringIO):
+    def isatty(self):
+        return True
+
+    def fileno(self):
+        raise OSError('not a real file')
+
+
+os.environ.setdefault('COLUMNS', '80')
+
+
 def read_object(mo):
     from . import impl
     cls = type(mo).__name__
@@ -94,6 +106,10 @@ def read_object(mo):
         out['exposed'] = {'crash': impl.err_name(e).replace('crash:', '')}
     out['carried'] = carried
     buf = io.StringIO()
+    import zlib
+    from xml.etree import ElementTree as _ET
+    if zlib.crc32(_ET.tostring(mo.xml)) % 2:
+        buf = _Tty()                 # what inspect() prints does not depend on whether stdout is a terminal
     try:
         with contextlib.redirect_stdout(buf), warnings.catch_warnings():
             warnings.simplefilter('ignore')
@@ -152,7 +168,9 @@ def messages(tier, seed):
     # every class once more with IDs that contain commas, dots, blanks, quotes (the short-ID idiom of __repr__ must not
     # leak into what a message exposes or prints)
     ids = ['OM_4.15529413,4.15529413.1', 'OM_4.15529413,4.15529413.2', 'a,b,c', "O'NEILL, x", ' padded ', 'x,']
-    A, Bb, C, Dd = ids[0], ids[1], ids[2], ids[3]
+    ids[2] = 'ENPS;P_NEWSROOM\\W\\F_RUNDOWNS\\R_2021-03-04 0600 BULLETIN;' + 'A1B2C3D4-' * 6 + 'long'      # longer than a terminal line
+    ids[3] = 'ENPS;P_NEWSROOM\\W\\F_RUNDOWNS\\R_2021-03-04 0600 BULLETIN;' + 'A1B2C3D4-' * 6 + 'long2'
+    A, Bb, C, Dd = ids[2], ids[3], ids[0], ids[1]
     sp_ro = TJ.to_text(B.ro_doc([B.story(A, [B.item(A), B.item(Bb), B.item(C)]), B.story(Bb, [B.item(A)]), B.story(C, []), B.story(Dd, [])]))
     sp = [('StorySend', B.story_send(A, [B.p('x')])), ('StoryAppend', B.story_append([B.story(ids[4], []), B.story(ids[5], [])])),
           ('StoryDelete', B.story_delete([A, C, Bb])), ('StoryInsert', B.story_insert(Bb, [B.story(ids[4], []), B.story(ids[5], [])])),
